@@ -402,3 +402,50 @@ def check(cx):
                 cx.verdict(vals == [want], r11, var, fa_.where(), "stores %s" % bool(want),
                            "the %s arm of apply_column_alter stores %s into is_non_null instead of the constant %s: ALTER COLUMN %s on a column "
                            "that already is in that state flips it" % (var, vals or "nothing", bool(want), "SET NOT NULL" if want else "DROP NOT NULL"))
+
+    # ---- C15.12 a stored index is registered with its table ----------------------------------------------------------------------
+    r12 = cx.rule("C15.12", "MPT: in DdlExecutor::create_unique_index every success path that stored the index relation also enters the "
+                  "index into the table's `table_indexes` map (unless the table keeps no such map); the registration does not depend on "
+                  "whether an equal UNIQUE constraint already exists - an index the table does not know of survives DROP TABLE CASCADE "
+                  "and keeps its name taken", floor=1)
+    fc = cx.guard(r12, "create_unique_index", p.fn, "runtime::ddl::DdlExecutor::create_unique_index")
+    if fc:
+        def reads_field(g, l, field):
+            ls = g.provenance_locals(l) | {l}
+            for _ in range(4):         # through the Option adaptors that hand out the same storage
+                more = set()
+                for c in g.calls():
+                    if c.dst and c.dst[0] in ls and c.callee.rsplit("::", 1)[-1] in ("as_mut", "as_ref", "as_deref", "as_deref_mut", "unwrap", "expect") \
+                            and c.args and op_local(c.args[0]) is not None:
+                        more |= g.provenance_locals(op_local(c.args[0])) | {op_local(c.args[0])}
+                if more <= ls:
+                    break
+                ls |= more
+            for b_ in g.blocks:
+                for st in b_["stmts"]:
+                    if st["dst"][0] in ls:
+                        pls = [st["rv"].get("p") or []] + [(o.get("c") or o.get("m") or []) for o in (st["rv"].get("o") or []) if isinstance(st["rv"].get("o"), list) and isinstance(o, dict)]
+                        if any(isinstance(pe, str) and pe.startswith("." + field + ":") for pl in pls for pe in pl[1:]):
+                            return True
+            return False
+        store = [c for c in fc.calls() if c.callee == "schema::catalog::Catalog::store_relation"]
+        ins = [c for c in fc.calls() if c.callee.rsplit("::", 1)[-1] == "insert" and c.args and op_local(c.args[0]) is not None
+               and reads_field(fc, op_local(c.args[0]), "table_indexes")]
+        no_map = set()
+        for bi, adt, m, oth, src in enum_switches(p, fc):
+            if adt == "std::option::Option" and reads_field(fc, src[0], "table_indexes"):
+                no_map.add((bi, m.get("None", oth)))
+        rets = {bi for bi, b in enumerate(fc.blocks) if b["term"]["t"] == "ret"}
+        good = bool(store) and bool(ins)
+        leak = None
+        if good:
+            for s_ in store:
+                if s_.term.get("to") is None:
+                    continue
+                reach = fc.reachable(s_.term["to"], blocked={c.bb for c in ins} | fc.err_blocks(), edge_filter=lambda a, b_: (a, b_) not in no_map)
+                if reach & rets:
+                    good, leak = False, sorted(reach & rets)[0]
+        cx.verdict(good, r12, "index-registered-with-table", (ins or store or fc.calls())[0].where() if (ins or store) else fc.where(),
+                   "after store_relation every success path inserts into table_indexes",
+                   "create_unique_index can return successfully after storing the index without entering it into the table's "
+                   "table_indexes (%s): DROP TABLE .. CASCADE leaves the index behind" % ("path to bb%s" % leak if leak is not None else "no registration found"))
